@@ -4,6 +4,7 @@ package c09
 
 import (
 	"fmt"
+	"math"
 	"sort"
 
 	"pgregory.net/rapid"
@@ -154,7 +155,7 @@ func Check(c *Case) (res kit.Result) {
 	}
 	d := e.S.Bits
 	lo, hi := numkit.Lo(d), numkit.Hi(d)
-	if c.Pad < 0 || c.Pad > 1<<20 || c.Fix < 0 || c.Fix > 7 || c.Ch < 0 || c.Ch > 64 {
+	if c.Pad < 0 || c.Pad > 1<<20 || c.Fix < 0 || c.Fix > 8 || c.Ch < 0 || c.Ch > 64 {
 		return
 	}
 	in := kit.PadInts(append([]int64{lo, 0, hi}, c.Amps...), c.Pad)
@@ -176,6 +177,42 @@ func Check(c *Case) (res kit.Result) {
 	if msg != "" {
 		res.Failf("%s", msg)
 		return
+	}
+	// The result is a function of the sample alone: the same values in other arrangements (zeros
+	// first then descending; zero between every two values; zeros first then ascending) must convert to
+	// the same floats, bit for bit, as in the ascending pass.
+	if len(in) <= 1<<12 {
+		asc := append([]float64(nil), r.out[:len(in)]...)
+		byAmp := make(map[int64]float64, len(in))
+		for i, a := range in {
+			byAmp[a] = asc[i]
+		}
+		var seqs [][]int64
+		desc := []int64{0, 0}
+		for i := len(in) - 1; i >= 0; i-- {
+			desc = append(desc, in[i])
+		}
+		inter := []int64{}
+		for i := range in {
+			inter = append(inter, in[len(in)-1-i], 0, in[i])
+		}
+		zeroThenAsc := append([]int64{0, 0}, in...) // a buffer that starts with zeros, negative values next
+		seqs = append(seqs, desc, inter, zeroThenAsc)
+		r2 := NewRunnerFix(e, kit.GetEnv(Property), c.Fix, c.Ch)
+		for si, seq := range seqs {
+			out := make([]float64, len(seq))
+			if p, v := kit.Try(func() { r2.blk(seq, nil, nil, out) }); p {
+				res.Failf("%s panicked on a rearranged buffer: %v", e, v)
+				return
+			}
+			for i, a := range seq {
+				if want := byAmp[a]; math.Float64bits(out[i]) != math.Float64bits(want) {
+					res.Failf("%s: amplitude %d converts to %.17g in an ascending buffer but to %.17g at position %d of arrangement %d (zeros first then descending / zero between every two values / zeros first then ascending): the result depends on the neighbouring samples", e, a, want, out[i], i, si)
+					return
+				}
+			}
+		}
+		res.Class("rearrangedBuffers")
 	}
 	if r.Known > 0 {
 		res.KnownHit(F9)
@@ -217,7 +254,7 @@ func Gen(t *rapid.T) *Case {
 	}
 	c := &Case{S: e.S.Name, D: e.D.Name}
 	c.Pad = kit.GenPad(t)
-	c.Fix = rapid.IntRange(0, 7).Draw(t, "fix")
+	c.Fix = rapid.IntRange(0, 8).Draw(t, "fix")
 	c.Ch = kit.GenNumCh(t, c.Pad)
 	n := rapid.IntRange(1, 24).Draw(t, "n")
 	base := kit.GenAmp(t, e.S.Bits, BAmps[e.S.Bits])
